@@ -34,6 +34,7 @@ type vSrvCarrier struct {
 	failSend  bool
 	sendErr   error
 	drainBlks int
+	onQuiesce func() // runs once every goroutine has come to rest, with the tunnel still up
 }
 
 func (c *vSrvCarrier) Context() context.Context { return c.ctx }
@@ -55,6 +56,9 @@ func (c *vSrvCarrier) Recv() (*tunnelpb.ClientToServer, error) {
 	b0 := verifBlockedCount()
 	verifDrain()
 	c.drainBlks += verifBlockedCount() - b0
+	if c.onQuiesce != nil {
+		c.onQuiesce()
+	}
 	return nil, c.endErr
 }
 
@@ -103,6 +107,8 @@ type vHandlerLog struct {
 	result  error
 	readOne bool // the streaming handler reads one request before returning
 	readErr error
+	returns int // handler invocations that have returned
+	sendOne bool // the streaming handler sends one response first
 }
 
 func vHandlers(hl *vHandlerLog) grpchan.HandlerMap {
@@ -111,6 +117,7 @@ func vHandlers(hl *vHandlerLog) grpchan.HandlerMap {
 		sn := sn
 		unary := func(srv any, ctx context.Context, dec func(any) error, _ grpc.UnaryServerInterceptor) (any, error) {
 			hl.calls = append(hl.calls, vInvocation{svc: srv.(*vSvcImpl).name, method: sn + "/u", ctx: ctx})
+			defer func() { hl.returns++ }()
 			if hl.result != nil {
 				return nil, hl.result
 			}
@@ -133,6 +140,10 @@ func vHandlers(hl *vHandlerLog) grpchan.HandlerMap {
 				}
 			}
 			hl.calls = append(hl.calls, inv)
+			defer func() { hl.returns++ }()
+			if hl.sendOne {
+				_ = st.SendMsg(&emptypb.Empty{})
+			}
 			if hl.readOne {
 				hl.readErr = st.RecvMsg(&wrapperspb.BytesValue{})
 			}
@@ -331,6 +342,14 @@ func verifH_SrvNewStream() {
 		car.script = append(car.script, &tunnelpb.ClientToServer{StreamId: fid, Frame: &tunnelpb.ClientToServer_Cancel{Cancel: &emptypb.Empty{}}})
 	}
 
+	// with the tunnel still up and everything at rest: what is left of this RPC?
+	liveAtRest, returnsAtRest, tableAtRest := -1, -1, -1
+	car.onQuiesce = func() {
+		liveAtRest, returnsAtRest, tableAtRest = verifLiveGoroutines(), hl.returns, len(svr.streams)
+	}
+	if focus == 1 {
+		hl.sendOne = true // a streaming handler that responds (and parks if the peer granted no window)
+	}
 	err := svr.serve(tmd)
 	loopBlocks := verifBlockedCount() - car.drainBlks
 	verifDrain()
@@ -396,6 +415,13 @@ func verifH_SrvNewStream() {
 	verifAssert(len(hl.calls) == 1, "C08.exactly-one-handler-invocation")
 	if len(hl.calls) != 1 {
 		return
+	}
+	if cont == 3 {
+		// the RPC was cancelled by its caller: everything it held is released while the tunnel stays up
+		verifCover("cancelled-while-tunnel-up")
+		verifAssert(returnsAtRest == 1, "C07+C14.cancelled-rpc-handler-released-while-tunnel-stays-up")
+		verifAssert(liveAtRest == 0, "C07+C14.cancelled-rpc-goroutines-gone-while-tunnel-stays-up")
+		verifAssert(tableAtRest == nby, "C07+C14.cancelled-rpc-table-entry-gone-while-tunnel-stays-up")
 	}
 	inv := hl.calls[0]
 	verifAssert(inv.svc == svc && inv.method == svc+"/"+method, "C08.the-named-handler")
